@@ -20,7 +20,7 @@ RULE = ("ss: 1-3 sibling streams; 0..64 KiB (boundary table) queued for a stream
         "(FIN overtaking data, FIN removing another id, leak after a received FIN, EOF before all data, reverse "
         "direction broken) is a VIOLATION. A bounded wait is not evidence of 'never'. Non-trivial = data queued "
         "before the close and at least one sibling stream, or a loopback case; distinct by sha256 of the case.")
-SIDE_LEMMAS = 5
+SIDE_LEMMAS = 4
 ASSUMPTIONS = ["'no task is retained' is observed (runtime idle under virtual time), not proved",
                "lo cases run in real time with a bounded 2 s watch for EOF: absence of EOF within the bound is labelled as such, not as 'never'",
                "the model is tied to session.rs handle_frame (Fin arm) / stream.rs poll_shutdown by differential execution on the ss cases (sampling); lo cases have no model side"]
